@@ -584,7 +584,7 @@ pub fn run_c13(ctx: &mut Ctx) {
     let soup: Vec<&str> = vec![
         "(", ")", "{", "}", ";", ",", ".", ":", "=", "->", "==", "!=", "!:", "record", "variant", "vec", "opt", "func", "service", "type", "import",
         "principal", "blob", "null", "true", "false", "query", "oneway", "composite_query", "nat", "int", "text", "nat8", "reserved", "empty", "a", "B_1",
-        "0", "1", "42", "4294967295", "4294967296", "0x1F", "0X1F", "0x_1", "1_000", "1.5", ".5", "1e10", "1e", "+", "-", "\"a\"", "\"\\u{41}\"", "\"\\u{dfff}\"",
+        "0", "1", "42", "4294967295", "4294967296", "0x1F", "0X1F", "0x_1", "0x_", "0X__", "0x", "_", "1_", "1_000", "1.5", ".5", "1e10", "1e", "+", "-", "\"a\"", "\"\\u{41}\"", "\"\\u{dfff}\"",
         "\"\\zz\"", "\"", "/*", "*/", "//x\n", " ", "\n", "é", "\\", "`", "#", "assert", "encode", "4294967295 = 1", "4294967295 : nat", "18446744073709551616",
         "record { 4294967295 = 1; 2 }", "(vec {1 : nat8; 2} : text)", "principal \"aaaaa-aa\"", "principal \"zz\"", "service \"aaaaa-aa\"", "func \"aaaaa-aa\".f",
     ];
@@ -630,6 +630,26 @@ pub fn run_c13(ctx: &mut Ctx) {
             }
         }
         let s = t.join(" ");
+        let entry = ENTRIES[i % ENTRIES.len()];
+        ctx.emit(&format!("txt.total\t{entry}\t{}", hexs(&s)), true);
+    }
+    // number-like lexemes letter by letter (digits, hex digits, the radix prefix, underscores, exponent and sign
+    // characters) in every position where the grammar takes a number
+    let alphabet: Vec<char> = "0123456789abcdefABCDEFxX__..eE+-".chars().collect();
+    let frames = ["({})", "({} : nat)", "(vec {{ {}; 1 }})", "(record {{ {} = 1 }})", "(variant {{ {} }})", "type T = record {{ {} : nat }};",
+        "(record {{ a = {} }})", "({} : float64)", "(-{})", "({}, {})"];
+    let k = if ctx.thorough { 300_000 } else { 8_000 };
+    for i in 0..k {
+        let len = ctx.rng.range(1, 6) as usize;
+        let mut lex = String::new();
+        if ctx.rng.chance(1, 2) {
+            lex.push_str(*ctx.rng.pick(&["0x", "0X", "0", "1", "0x_", ".", "1e", "1.", "0x1"]));
+        }
+        for _ in 0..len {
+            lex.push(*ctx.rng.pick(&alphabet[..]));
+        }
+        let frame = *ctx.rng.pick(&frames);
+        let s = frame.replace("{}", &lex);
         let entry = ENTRIES[i % ENTRIES.len()];
         ctx.emit(&format!("txt.total\t{entry}\t{}", hexs(&s)), true);
     }
